@@ -110,6 +110,12 @@ Definition bind_ok (ps : list param) (kw : list (string * aval)) : bool :=
                     | _ => true
                     end) ps.
 
+Definition kind_name_of_arg (s : tsig) (a : argspec) : string :=
+  match find (fun p => String.eqb (p_name p) (arg_name a)) (s_params s) with
+  | Some p => kind_name (s_deco s) p
+  | None => "?"
+  end.
+
 (** The whole pipeline: Task(body, **deco).get_arguments() -> ParserContext *)
 Definition sig_cli (s : tsig) : result cli :=
   let args := get_arguments s in
@@ -118,5 +124,6 @@ Definition sig_cli (s : tsig) : result cli :=
   | Ok c =>
       let kw := as_kwargs c in
       Ok (mkCli args (x_flags c) (x_flag_aliases c) (x_inverse c) (x_positional c)
-                kw (bind_ok (s_params s) kw))
+                kw (bind_ok (s_params s) kw)
+                (map (kind_name_of_arg s) args) (map takes_value args))
   end.
